@@ -1219,3 +1219,55 @@ def local_memo_tables(ck, rels, rule='CACHE-key'):
                 ck.ob(rule, module.loc(st), not problems, '{}: memo table `{}` filled with `{}`: the key determines what the computation reads{}'.format(
                     qual, table, u(call)[:80], '' if not problems else ' -- NOT: ' + '; '.join(problems)), key='{}|memo|{}|{}|{}'.format(rule, rel, qual, table))
     ck.ob(rule, rels[0] if rels else '-', True, 'local memo tables (`if key not in table: table[key] = f(..)`) examined: {}'.format(n), key=rule + '|memo-scan|' + ','.join(rels))
+
+
+# ----------------------------------------------------------------------------------------------------------------------
+def no_live_view_in_mutating_loop(ck, rels, rule='ORD-snapshot'):
+    """A property computed from an attribute (`reverse_mapping` from `mapping`) is a *view that is recomputed on every access*.  A loop that writes into
+    that attribute must not read the property inside the loop: every pass would see a half-updated state.  (Take the value once, before the loop.)"""
+    n = 0
+    for rel in rels:
+        module = ck.index.mod(rel)
+        for cname, cls in module.classes.items():
+            if '.' in cname:
+                continue
+            derived = {}
+            for m in cls.body:
+                if isinstance(m, FUNC_TYPES) and any(isinstance(d, ast.Name) and d.id == 'property' for d in m.decorator_list):
+                    reads = {x.attr for x in ast.walk(m) if isinstance(x, ast.Attribute) and isinstance(x.value, ast.Name) and x.value.id == 'self' and isinstance(x.ctx, ast.Load)}
+                    derived[m.name] = reads - {m.name}
+            if not derived:
+                continue
+            for m in cls.body:
+                if not isinstance(m, FUNC_TYPES):
+                    continue
+                for loop in [l for l in walk_local(m) if isinstance(l, (ast.For, ast.While))]:
+                    # attributes of self the loop writes into: directly, or through a loop variable that walks them
+                    aliases = {}
+                    for l2 in [loop] + [x for x in ast.walk(loop) if isinstance(x, ast.For)]:
+                        it = l2.iter if isinstance(l2, ast.For) else None
+                        src = it.func.value if isinstance(it, ast.Call) and isinstance(it.func, ast.Attribute) and it.func.attr in ('values', 'items') else it
+                        if isinstance(src, ast.Attribute) and isinstance(src.value, ast.Name) and src.value.id == 'self':
+                            for t in ast.walk(l2.target):
+                                if isinstance(t, ast.Name):
+                                    aliases[t.id] = src.attr
+                    written = set()
+                    for x in ast.walk(loop):
+                        if isinstance(x, ast.Subscript) and isinstance(x.ctx, (ast.Store, ast.Del)):
+                            root = x.value
+                            while isinstance(root, ast.Subscript):
+                                root = root.value
+                            if isinstance(root, ast.Attribute) and isinstance(root.value, ast.Name) and root.value.id == 'self':
+                                written.add(root.attr)
+                            elif isinstance(root, ast.Name) and root.id in aliases:
+                                written.add(aliases[root.id])
+                    if not written:
+                        continue
+                    n += 1
+                    for x in ast.walk(loop):
+                        if isinstance(x, ast.Attribute) and isinstance(x.value, ast.Name) and x.value.id == 'self' and x.attr in derived and derived[x.attr] & written:
+                            ck.ob(rule, module.loc(x), False, '{}.{}: the loop writes into self.{} and reads the property `{}` (recomputed from it on every access) inside the loop: '
+                                  'each pass sees a half-updated state'.format(cname, m.name, sorted(derived[x.attr] & written)[0], x.attr),
+                                  key='{}|{}|{}.{}|{}'.format(rule, rel, cname, m.name, x.attr))
+    ck.ob(rule, rels[0] if rels else '-', True, 'loops that write into an attribute of self while a property derived from it exists: {} examined, none reads the property inside'.format(n),
+          key=rule + '|scan|' + ','.join(rels))
